@@ -108,7 +108,9 @@ claim('C03', 'exploration', TECH + ': the two engines as replicas fed the same s
       'Generated worlds in the common feature set are run once by the WNTRSimulator (under the taps, all accepted steps recorded) and by EPANET 2.2 on the INP file WNTR writes in 3 seeded '
       '(thorough: all 10) unit systems, plus on the model re-read from the first file. (a) EPANET results must not depend on the unit system; (b) on healthy worlds WNTR and EPANET must agree at '
       'every report step incl. status timelines; (c) the re-read model must give the results of the file. Comparisons stop at the first report row at which any run comes near a switching point '
-      '(control threshold, tank limit, internal status change, partial step), because both engines resolve such instants to the second and legitimately differ afterwards.',
+      '(control threshold, tank limit, internal status change, partial step), because both engines resolve such instants to the second and legitimately differ afterwards. '
+      'Worlds include reverse-drawn twin pipes with a closed window and PRV pressure zones (a tank pushes the valve closed, demand makes it regulate again); a PRV/PSV that WNTR never lets '
+      'leave the closed state although its own reported heads satisfy EPANET\'s rule with a metre to spare on two consecutive rows, while EPANET did leave it, is a difference.',
       INV_NOTE + ' EPANET is a binary replica, not rebuilt. Several EPANET behaviours bound the generator (report step = hydraulic step, no rules in worlds with tanks, inequality thresholds 7 s off the rule grid, distinct rule priorities); they are listed in DESIGN.md section 4 (C03).',
       'DESIGN.md section 4 (C03)')
 
